@@ -49,6 +49,7 @@ type Case struct {
 	Nodes   int          `json:"nodes,omitempty"`
 	Salt    int          `json:"salt,omitempty"`
 	Moved   []int        `json:"moved,omitempty"`
+	Asked   []int        `json:"asked,omitempty"` // keys whose slot is migrating: the owner answers -ASK
 	HKeys   []string     `json:"hkeys,omitempty"`
 	HResps  []HelperResp `json:"hresps,omitempty"`
 }
@@ -158,6 +159,8 @@ func genCase(r *gen.Rand, i int) any {
 		for j := 0; j < nk; j++ {
 			if r.Chance(1, 6) && !contains(c.Pend, j) {
 				c.Moved = append(c.Moved, j)
+			} else if r.Chance(1, 6) && !contains(c.Pend, j) {
+				c.Asked = append(c.Asked, j)
 			}
 		}
 	}
@@ -232,7 +235,7 @@ func srvTable(entries []fakeredis.Entry) (srvt, qt string) {
 			continue
 		}
 		key := strings.Join(e.Argv, "\x00")
-		isQ := e.Reply.T == '-' && strings.HasPrefix(e.Reply.S, "MOVED ") && !e.InTx
+		isQ := e.Reply.T == '-' && (strings.HasPrefix(e.Reply.S, "MOVED ") || strings.HasPrefix(e.Reply.S, "ASK ")) && !e.InTx
 		if isQ {
 			key = "q" + key
 		} else if !e.InTx && isQueued(e.Reply) {
@@ -393,6 +396,7 @@ func run(ci any) (res obs.Result) {
 	}
 	// 2. migrate slots (cluster): the client keeps routing by its old map
 	movedTo := map[string]int{}
+	askedKey := map[string]bool{}
 	if e.cl != nil {
 		for _, j := range c.Moved {
 			k := c.Keys[j]
@@ -406,6 +410,22 @@ func run(ci any) (res obs.Result) {
 				}
 			}
 			e.cl.Move(k.Name, to)
+		}
+		for _, j := range c.Asked {
+			k := c.Keys[j]
+			if _, mv := movedTo[k.Name]; mv {
+				continue
+			}
+			from := e.cl.Owner(k.Name)
+			to := (from + 1) % c.Nodes
+			for _, k2 := range c.Keys {
+				if csc.Slot(k2.Name) == csc.Slot(k.Name) {
+					put(e.cl.Nodes[to], k2)
+					movedTo[k2.Name] = to
+					askedKey[k2.Name] = true
+				}
+			}
+			e.cl.Migrate(k.Name, to)
 		}
 	}
 	// 3. flights of another caller, held open by the stalled server
@@ -639,12 +659,17 @@ func run(ci any) (res obs.Result) {
 		seenR := map[string]bool{}
 		for _, s := range e.cl.Nodes {
 			for _, en := range s.LogCopy() {
-				if en.Reply.T == '-' && strings.HasPrefix(en.Reply.S, "MOVED ") && !seenR[en.Reply.S] {
+				isM := strings.HasPrefix(en.Reply.S, "MOVED ")
+				if en.Reply.T == '-' && (isM || strings.HasPrefix(en.Reply.S, "ASK ")) && !seenR[en.Reply.S] {
 					seenR[en.Reply.S] = true
 					f := strings.Fields(en.Reply.S)
 					for n, a := range e.cl.Addrs {
 						if len(f) == 3 && a == f[2] {
-							redir = append(redir, csc.Pair(obs.HS(en.Reply.S), "(RMoved "+obs.N(uint64(n))+")"))
+							kind := "(RAsk "
+							if isM {
+								kind = "(RMoved "
+							}
+							redir = append(redir, csc.Pair(obs.HS(en.Reply.S), kind+obs.N(uint64(n))+")"))
 						}
 					}
 				}
@@ -673,7 +698,11 @@ func run(ci any) (res obs.Result) {
 			feat["miss"] = true
 		}
 		if _, mv := movedTo[c.Keys[j].Name]; mv && !contains(c.Warm, j) {
-			feat["moved"] = true
+			if askedKey[c.Keys[j].Name] {
+				feat["asked"] = true
+			} else {
+				feat["moved"] = true
+			}
 		}
 	}
 	var fs []string
